@@ -367,7 +367,7 @@ BBASSIGN = {
 
 class SymExec:
     def __init__(self, facts, body, cgen=None, tgen=None, max_paths=20000, inline=None,
-                 opaque=None, max_inline_blocks=14, max_depth=4, params=None, entry_store=None):
+                 opaque=None, max_inline_blocks=20, max_depth=4, params=None, entry_store=None):
         self.facts = facts
         self.ops = Ops(facts)
         self.body = body
@@ -384,6 +384,13 @@ class SymExec:
         self.params = params
         self.entry_store = entry_store
         self.nevents = 0
+        self.types = {}
+        self.mut_params = set()
+        for i in range(1, body.argc + 1):
+            self.types[("param", body.local_name(i))] = body.locals[i]["ty"]
+        for i in range(1, body.argc + 1):
+            if body.locals[i]["ty"].startswith("&mut"):
+                self.mut_params.add(body.local_name(i))
 
     # ---------------------------------------------------------------- helpers
     def loops_of(self, body):
@@ -540,6 +547,10 @@ class SymExec:
         root, path = a
         if not path:
             st.store[root] = val
+            if root[0] == "L" and isinstance(val, tuple) and val and val[0] not in ("int", "ptr"):
+                ty = fr.body.locals[root[2]]["ty"]
+                if not ty.startswith("&"):
+                    self.types.setdefault(val, ty)
         else:
             base = st.store.get(root)
             if base is None:
@@ -646,7 +657,7 @@ class SymExec:
             if op.endswith("WithOverflow"):
                 base = op[:-len("WithOverflow")]
                 r = o.bin(base, a, b)
-                return ("tuple", (r, ("ovf", base, a, b)))
+                return ("tuple", (r, ("ovf", base, a, b, rv["aty"])))
             if op in ("Shl", "Shr", "ShlUnchecked", "ShrUnchecked") and b[0] == "int":
                 b = I(b[1], a[2] if a[0] == "int" else b[2])
             return o.bin(op, a, b)
@@ -697,7 +708,7 @@ class SymExec:
                     st.store[root] = ("hv", tag, fr.body.local_name(l), bb)
             if mem:
                 for root in list(st.store):
-                    if root[0] == "P":
+                    if root[0] == "P" and root[1] in self.mut_params:
                         st.nhv += 1
                         st.store[root] = ("hvmem", root[1], tag, bb)
         return True
@@ -893,8 +904,19 @@ class SymExec:
                 return "cont"
             else:
                 key = name
-                ct = tuple(x for x in targs if isinstance(x, tuple) or x in ("true", "false"))
-                val = ("call", key, args, ct) if ct else ("call", key, args)
+                ct = tuple(x for x in targs if isinstance(x, str) and not x.startswith("{closure") and not x.startswith("'"))
+                ct = tuple(x for x in ct if x in ("true", "false") or (name.startswith("cozy_chess") and "::" in x))
+                impure = []
+                for a in args:
+                    self.mut_ptrs(a, impure)
+                if impure:
+                    # a call that may mutate through its arguments is not a pure expression: number repeats
+                    base = ("call", key, args, ct)
+                    nrep = sum(1 for e0 in st.events if e0.kind == "call" and e0.ret is not None
+                               and e0.ret[:4] == base)
+                    val = ("call", key, args, ct, nrep)
+                else:
+                    val = ("call", key, args, ct) if ct else ("call", key, args)
                 self.effects(st, args, ev)
         ev.ret = val
         st.events.append(ev)
@@ -999,6 +1021,8 @@ class SymExec:
             return ("has", args[0], args[1])
         if name == BB + "::len":
             return ("len", args[0])
+        if name == BB + "::iter":
+            return ("iter", args[0])
         if name == "cozy_chess_types::square::Square::bitboard":
             return ("bbof", args[0])
         if name.startswith("<cozy_chess_types::color::Color as core::ops::") and name.endswith("Not>::not"):
